@@ -240,3 +240,55 @@ def illegal_inputs(simname='Simulation', bw=4):
         elif legal and got != val:
             probs.append('value %d simulated as %r' % (val, got))
     return dict(failed=bool(probs), observed=probs, expected=[])
+
+
+def illegal_mid_sequence(simname='Simulation', k=2, with_expected=False):
+    """step_multiple with an illegal value at step k >= 1: the error is raised after exactly the k
+    legal steps were executed and traced (as single stepping does); the simulation can go on."""
+    import io
+    import contextlib
+    import pyrtl
+
+    def build():
+        pyrtl.reset_working_block()
+        a = pyrtl.Input(4, 'a')
+        r = pyrtl.Register(6, 'r')
+        r.next <<= (r + a)[:6]
+        o = pyrtl.Output(6, 'o')
+        o <<= r + a
+        return pyrtl.working_block()
+    vals = [1, 2, 3, 4, 5, 6]
+    vals[k] = 99
+    # reference: single stepping
+    b = build()
+    sim = _mk(simname, b)
+    done = 0
+    try:
+        for v in vals:
+            sim.step({'a': v})
+            done += 1
+    except pyrtl.PyrtlError:
+        pass
+    sim.step({'a': 7})
+    ref = (done, list(sim.tracer.trace['o']), sim.inspect('o'))
+    b = build()
+    sim2 = _mk(simname, b)
+    raised = False
+    kw = dict(provided_inputs={'a': vals})
+    if with_expected:
+        kw['expected_outputs'] = {'o': ['?'] * len(vals)}
+    try:
+        with contextlib.redirect_stdout(io.StringIO()):
+            sim2.step_multiple(**kw)
+    except pyrtl.PyrtlError:
+        raised = True
+    except Exception as e:
+        return dict(failed=True, observed='%s instead of PyrtlError' % type(e).__name__, expected='PyrtlError')
+    if not raised:
+        return dict(failed=True, observed='illegal value accepted by step_multiple', expected='PyrtlError')
+    sim2.step({'a': 7})
+    got = (len(sim2.tracer.trace['o']) - 1, list(sim2.tracer.trace['o']), sim2.inspect('o'))
+    if got != ref or done != k:
+        return dict(failed=True, observed=dict(steps_before_error=got[0], trace=got[1], inspect=got[2]),
+                    expected=dict(steps_before_error=ref[0], trace=ref[1], inspect=ref[2]))
+    return dict(failed=False, observed='ok', expected='ok')
